@@ -226,7 +226,10 @@ class StreamReaderBufferedProtocol(asyncio.BufferedProtocol):
 
     def get_buffer(self, sizehint: int) -> WriteableBuffer:
         if (external_buffer_view := self.__external_buffer_view) is not None:
-            return external_buffer_view
+            if (waiter := self.__read_waiter) is not None and not waiter.done():
+                return external_buffer_view
+            # The receive operation has been cancelled but its task did not wake up yet: its buffer must not be used anymore.
+            self.__external_buffer_view = None
         # Ignore sizehint, the buffer is already at its maximum size.
         # Returns unused buffer part
         if self.__buffer is None:
@@ -340,6 +343,10 @@ class StreamReaderBufferedProtocol(asyncio.BufferedProtocol):
                 self.__external_buffer_view = external_buffer
                 try:
                     nbytes_written_in_external_buffer = await self.__read_waiter
+                except asyncio.CancelledError:
+                    # Cancelled after the data have been written in the caller's buffer: keep them for the next read.
+                    self.__keep_data_of_cancelled_read(self.__read_waiter, external_buffer)
+                    raise
                 finally:
                     self.__external_buffer_view = None
         finally:
@@ -348,6 +355,23 @@ class StreamReaderBufferedProtocol(asyncio.BufferedProtocol):
         if nbytes_written_in_external_buffer is None:
             self._check_for_connection_lost()
         return nbytes_written_in_external_buffer
+
+    def __keep_data_of_cancelled_read(self, waiter: asyncio.Future[int | None], external_buffer: WriteableBuffer) -> None:
+        if waiter.cancelled() or not waiter.done() or waiter.exception() is not None or self.__buffer is None:
+            return
+        if not (nbytes := waiter.result()):
+            return
+        already_written = self.__buffer_nbytes_written
+        if already_written + nbytes > self.__buffer_view.nbytes:
+            new_buffer = bytearray(already_written + nbytes)
+            new_buffer[:already_written] = self.__buffer_view[:already_written]
+            self.__buffer_view.release()
+            self.__buffer = new_buffer
+            self.__buffer_view = memoryview(new_buffer)
+        with memoryview(external_buffer) as external_buffer_view:
+            self.__buffer_view[already_written : already_written + nbytes] = external_buffer_view[:nbytes]
+        self.__buffer_nbytes_written = already_written + nbytes
+        self._maybe_pause_transport()
 
     def _read_waiter_fut(self, set_result_cb: Callable[[asyncio.Future[int | None]], None]) -> None:
         if (waiter := self.__read_waiter) is not None:
